@@ -236,7 +236,11 @@ theorem group_classes_match_model :
     classOf "Load" = some "sideEffectNone" ∧ classOf "Uload8" = some "sideEffectNone" ∧
     classOf "Store" = some "sideEffectStrict" ∧ classOf "Istore8" = some "sideEffectStrict" ∧
     classOf "Call" = some "sideEffectStrict" ∧ classOf "CallIndirect" = some "sideEffectStrict" ∧
-    classOf "AtomicRmw" = some "sideEffectStrict" ∧ classOf "ExitIfTrueWithCode" = some "sideEffectStrict" := by decide
+    classOf "AtomicRmw" = some "sideEffectStrict" ∧ classOf "ExitIfTrueWithCode" = some "sideEffectStrict" ∧
+    -- EVERY instruction that writes memory, calls, exits or synchronises is strict (none of them may merely "trap")
+    (["Store", "Istore8", "Istore16", "Istore32", "AtomicStore", "AtomicRmw", "AtomicCas", "AtomicLoad", "Fence",
+      "Call", "CallIndirect", "TailCallReturnCall", "TailCallReturnCallIndirect", "ExitWithCode", "ExitIfTrueWithCode",
+      "Return", "Jump", "Brz", "Brnz", "BrTable"].all (fun o => classOf o == some "sideEffectStrict")) = true := by decide
 
 /-! ### callee-saved registers: what the caller keeps across a call survives it -/
 
